@@ -116,6 +116,13 @@ CLAIMED["C08"] = (
     "DESIGN.md 3/C08",
 )
 
+CLAIMED["C10"] = (
+    "runtime monitor: random history machine over a pool of very different functions per backend (long-lived evaluators of all four kinds, tapes built with storage recycled from arbitrary earlier tapes, simplify with reused workspace and storage recycled from other functions, recycle, RenderHandle simplify/recycle sequences with cache hits and misses); a shadow performs every call with brand-new objects; values, traces and simplified instruction streams compared bit-for-bit; guard-page allocator on during evaluator calls; crash monitor",
+    "Held on every history/step observed (hundreds of thousands of steps per quick run, counts per step kind and reuse kind in evidence). Exploration over histories.",
+    "Interval evaluations or simplifications that fail identically with reused and fresh objects are left to C11/C04.",
+    "DESIGN.md 3/C10",
+)
+
 NOT_YET = {}
 
 def main():
